@@ -411,13 +411,23 @@ func goroutineDump() string {
 	return string(buf[:n])
 }
 
+// drawPlan draws the read fragmentation of one side. Sleeping yields are only
+// combined with chunk sizes >= 1000 bytes: a session moves up to ~100 KiB, and
+// byte-wise reads with a sleep each would turn the harness's own pipe into the
+// bottleneck (seen as a 90 s "timeout" on a loaded machine).
 func drawPlan(rt *rapid.T, name string) rawpeer.Plan {
-	if rapid.IntRange(0, 2).Draw(rt, name+"Frag") == 0 {
+	switch rapid.IntRange(0, 3).Draw(rt, name+"Frag") {
+	case 0:
 		return nil
+	case 1:
+		chunks := rapid.SliceOfN(rapid.SampledFrom([]int{1000, 4096, 0, 65535}), 1, 3).Draw(rt, name+"BigChunks")
+		yields := rapid.SliceOfN(rapid.SampledFrom([]int{0, 1, 20}), 1, 3).Draw(rt, name+"Yields")
+		return &rawpeer.SeqPlan{Chunks: chunks, Yields: yields}
+	default:
+		chunks := rapid.SliceOfN(rapid.SampledFrom([]int{1, 2, 7, 8, 9, 64, 1000, 4096, 0}), 1, 4).Draw(rt, name+"Chunks")
+		yields := rapid.SliceOfN(rapid.SampledFrom([]int{0, 0, 1}), 1, 3).Draw(rt, name+"Gosched")
+		return &rawpeer.SeqPlan{Chunks: chunks, Yields: yields}
 	}
-	chunks := rapid.SliceOfN(rapid.SampledFrom([]int{1, 2, 7, 8, 9, 64, 1000, 4096, 0}), 1, 4).Draw(rt, name+"Chunks")
-	yields := rapid.SliceOfN(rapid.SampledFrom([]int{0, 0, 1, 20}), 1, 3).Draw(rt, name+"Yields")
-	return &rawpeer.SeqPlan{Chunks: chunks, Yields: yields}
 }
 
 func TestC22(t *testing.T) {
